@@ -131,6 +131,10 @@ KINDS += [  # option-dependent container behaviour
 KIND = {k.name: k for k in KINDS}
 
 
+DELIMITED_ONE = {'List.elts': '[x0, x1]', 'Tuple.elts': '(x0, x1)', 'Set.elts': '{x0, x1}', 'Delete.targets': '[x0, x1]',
+                 'Call.args': '[x0, x1]', 'List.elts(mb)': '(δ, x1)'}
+
+
 def bounds(n):
     vals = list(range(-(n + 2), n + 3)) + ['end']
     return [(a, b) for a in vals for b in vals]
@@ -277,6 +281,29 @@ def run_slice_cases(fst, kind, n, res, tier):
                     except Exception as e:  # noqa: BLE001
                         exc = e
                     judge(fst, kind, cid, src, root, exp, exc, res, params, rep, exp != old)
+            if lay == 'bare' and kind.name in DELIMITED_ONE and (start, stop) in [(a, b) for a in range(n + 1) for b in range(a, n + 1)]:
+                # source text that is itself a delimited sequence is ONE new element, as a string and as a list of lines
+                s, t = model_slice(n, start, stop)
+                elem = DELIMITED_ONE[kind.name]
+                exp = old[:s] + [elem] + old[t:]
+                for form in ('str', 'lines', 'lines2'):
+                    code = elem if form == 'str' else [elem] if form == 'lines' else elem.replace(', ', ',\n ').split('\n')
+                    cid = f'C03/{kind.name}/n{n}/[{start}:{stop}]/delimited-{form}/put_slice'
+                    params = {'kind': kind.name, 'entry': 'put_slice', 'reversed_bounds': False, 'lay': lay}
+                    rep = {'kind': kind.name, 'n': n, 'start': start, 'stop': stop, 'delimited': form}
+                    root = fst.FST(src, 'exec')
+                    res.evals += 1
+                    res.transitions += 1
+                    exc = None
+                    try:
+                        with deadline(10):
+                            do_entry(fst, kind, root, 'put_slice', start, stop, code)
+                    except CaseTimeout:
+                        res.fail(cid, 'hang', '', params, rep)
+                        continue
+                    except Exception as e:  # noqa: BLE001
+                        exc = e
+                    judge(fst, kind, cid, src, root, exp, exc, res, params, rep, True)
     res.sample({'kind': kind.name, 'n': n, 'base': base})
 
 
